@@ -20,6 +20,15 @@ def cursor_names(w):
     return names
 
 
+def _lower_bound(e):
+    """Constant lower bound of a non-negative offset expression (names are lengths >= 0)."""
+    if isinstance(e, ast.Constant) and isinstance(e.value, int):
+        return e.value
+    if isinstance(e, ast.BinOp) and isinstance(e.op, ast.Add):
+        return _lower_bound(e.left) + _lower_bound(e.right)
+    return 0
+
+
 def decoder_loops(prog):
     for f in prog.all_functions():
         if not f.module.name.startswith('yabgp.message'):
@@ -239,6 +248,58 @@ def check(prog, rep, tier):
             if lp and min(lp) < min(sp):
                 # assigned before the loop? then the early load reads the previous iteration's value
                 carried.append(name)
+        # list accumulators (x = [] before the loop, only grown inside it) are write-only in the loop: reading
+        # back what earlier elements produced makes the result depend on the neighbours
+        acc = set()
+        for st in ast.walk(f.node):
+            if isinstance(st, ast.Assign) and isinstance(st.value, ast.List) and not st.value.elts and \
+                    st.lineno < w.lineno and isinstance(st.targets[0], ast.Name) and st.targets[0].id not in stores:
+                acc.add(st.targets[0].id)
+        acc_reads = []
+        bpar = {}
+        for n in ast.walk(body):
+            for c in ast.iter_child_nodes(n):
+                bpar[c] = n
+        for n in ast.walk(body):
+            if isinstance(n, ast.Name) and n.id in acc and isinstance(n.ctx, ast.Load):
+                p = bpar.get(n)
+                if isinstance(p, ast.Attribute) and p.attr in ('append', 'extend', 'insert') and \
+                        isinstance(bpar.get(p), ast.Call) and bpar[p].func is p:
+                    continue
+                inspected = isinstance(p, (ast.Subscript, ast.BoolOp, ast.Compare, ast.UnaryOp, ast.If, ast.IfExp,
+                                           ast.While)) or \
+                    (isinstance(p, ast.Call) and src_of(p.func) in ('len', 'bool', 'any', 'all') and n in p.args) or \
+                    (isinstance(p, ast.Attribute) and p.attr in ('pop', 'index', 'count', 'remove'))
+                if inspected:
+                    acc_reads.append((n.id, n.lineno))
+        if acc_reads:
+            rep.bad('R15.c', lk, file=f.file, line=acc_reads[0][1], func=f.qualname,
+                    found='the result list %r is read back inside the loop (line %d): what an element decodes to '
+                          'depends on the elements before it' % acc_reads[0],
+                    expected='the result list is only appended to', key=lk)
+            continue
+        # the loop runs while input remains: a test len(cursor) > K / >= K must not stop while a whole element
+        # (at least the octets every iteration consumes) is still there
+        minadv = None
+        for st in ast.walk(body):
+            if isinstance(st, ast.Assign) and isinstance(st.value, ast.Subscript) and \
+                    isinstance(st.value.slice, ast.Slice) and st.value.slice.upper is None and \
+                    st.value.slice.lower is not None and src_of(st.targets[0]) in cur and \
+                    src_of(st.value.value) == src_of(st.targets[0]):
+                lb = _lower_bound(st.value.slice.lower)
+                minadv = lb if minadv is None else min(minadv, lb)
+        t = w.test
+        if minadv and isinstance(t, ast.Compare) and len(t.ops) == 1 and isinstance(t.left, ast.Call) and \
+                src_of(t.left.func) == 'len' and isinstance(t.comparators[0], ast.Constant) and \
+                isinstance(t.comparators[0].value, int) and isinstance(t.ops[0], (ast.Gt, ast.GtE)):
+            k = t.comparators[0].value + (1 if isinstance(t.ops[0], ast.Gt) else 0)
+            if k > minadv:
+                rep.bad('R15.c', lk, file=f.file, line=w.lineno, func=f.qualname,
+                        found='the loop stops when fewer than %d octets remain (%s) but an element can be as short '
+                              'as %d octets: a minimal last element is dropped, yet decoded when something follows it'
+                              % (k, src_of(t), minadv),
+                        expected='continue while a whole element remains', key=lk)
+                continue
         # loop variables of inner for-loops are stores that precede their loads
         if carried:
             rep.bad('R15.c', lk, file=f.file, line=w.lineno, func=f.qualname,
